@@ -2,10 +2,15 @@
 (* Standalone model check of the P-layer: every result the calls may produce, every interleaving of calls,
    internal steps and returns of the caller protocol; checks that the guards maintain the statement's invariants. *)
 EXTENDS StoreIndex, TLC
+CONSTANT MCOps   \* the operations the model-checked callers use
 KeyOps == {"ow", "or", "fk", "ou"}
 MCNext == \E p \in Proc :
             \/ \E r \in ResDom(p) : Lin(p, r)
-            \/ \E op \in Ops : \E k \in (IF op \in KeyOps THEN Key ELSE {0}) : Call(p, op, k)
+            \/ \E op \in MCOps : \E k \in (IF op \in KeyOps THEN Key ELSE {0}) : Call(p, op, k)
             \/ pend[p].op # "none" /\ done[p] /\ Ret(p, pend[p].op, res[p])
 MCSpec == PInit /\ [][MCNext]_pvars
+\* start with one complete entry (key 1, one slice) at anchor 0: the update cycle without the writer operations
+InitOne == PInitWith([a \in Anchor |-> IF a = 0 THEN [key |-> 1, st |-> "complete", ch |-> <<0>>]
+                                                 ELSE [key |-> 0, st |-> "empty", ch |-> <<>>]])
+MCSpecOne == InitOne /\ [][MCNext]_pvars
 ====
